@@ -44,6 +44,7 @@ DIMS = {
 DIMS['contribs'].remove(['abs'])
 DIMS['contribs'].insert(0, ['abs'])
 
+DIMS_DEFAULT = dict((k, v[0]) for k, v in DIMS.items())
 MAGS = {'zero': (0.0, None), 'thin': (1e-33, None), 'tau1': (1e-27, None),
         'mixed': (1.0, [1e-33, 1e-27, 1e-23, 1e-18]), 'sat': (1e-18, None)}
 
@@ -212,6 +213,59 @@ def case_fn(case):
 
 
 # ---------------------------------------------------------------------------------------------
+# inverted saturation: an absorber confined to the top layers, calibrated so that the highest rays are
+# just opaque (tau ~ 20 at every wavenumber) while the deeper rays, which cross the same shells on shorter
+# chords, are not; a second, grey source matters in the deep layers.  (The tau>10 licence is per ray.)
+# ---------------------------------------------------------------------------------------------
+def inverted_fn(case):
+    r = core.R(case)
+    N, ntop = case['N'], case['ntop']
+    c = dict(DIMS_DEFAULT, N=N, path=case['path'], mag='tau1', contribs=['abs', case['second']], T=['iso', 1000.0])
+    c['pattern'] = 'flat'
+
+    def build(x_top, scale=1.0):
+        fx.reset_caches()
+        from taurex.cache import OpacityCache, CIACache
+        tabs = {}
+        for mol, f in (('H2O', 1.0), ('CH4', 0.37)):
+            tabs[mol] = fx.table(3, 3, 4, 1e-27, salt=('c01inv', mol), pattern='flat') * f * scale
+            OpacityCache().add_opacity(fx.TinyOp(mol, WN, TG, PG, tabs[mol]))
+        cia = fx.rng('c01cia').uniform(0.5, 1.5, size=(3, 4)) * 1e-55
+        CIACache().add_cia(fx.TinyCIA('H2-He', WN, CIA_T, cia))
+        CIACache().add_cia(fx.TinyCIA('H2-H2', WN, CIA_T, cia[::-1, ::-1] * 0.3))
+        sp = spec_of(c, 0.1)          # the second source stays moderate in the deep layers
+        prof = [1e-30] * (N - ntop) + [x_top] * ntop
+        sp['gases'] = [['H2O', ['array', prof]], ['CH4', ['const', 1e-30]]]
+        return fx.build_model(sp), tabs, cia
+
+    x_top = 1e-2
+    probe, tabs, cia = build(x_top)
+    probe.model()
+    sig_top = opac.interp_opacity(tabs['H2O'], TG, PG, float(probe.temperatureProfile[-1]),
+                                  float(probe.pressureProfile[-1]), 'linear')
+    col = float(sig_top.min()) * x_top * float(probe.densityProfile[-1]) * float(probe.path_length[-1][0])
+    m, tabs, cia = build(x_top, scale=20.0 / col)     # the table is an input: scaled so that the top ray has tau = 20
+    grid, depth, trans, _ = m.model()
+    tau_ref, segs, b, outer, zb, dz, Rp = reference(m, c, tabs, cia)
+    T_ref = np.exp(-tau_ref)
+    trans = np.asarray(trans, float)
+    sat = np.array([tau_ref[l].min() > 10 for l in range(N)])
+    r.count('rays-saturated', int(sat.sum()))
+    inverted = bool(sat.any() and not sat[0])
+    r.count('inverted-pattern-reached', int(inverted))
+    for l in range(N):
+        if sat[l]:
+            ok = np.all(trans[l] <= math.exp(-10) * (1 + 1e-9)) and np.all(trans[l] >= T_ref[l] * (1 - 1e-9) - 1e-300)
+            r.check(bool(ok), 'transmittance-saturated', 'inverted/saturated/%s' % case['path'], layer=l)
+        else:
+            r.eq(trans[l], T_ref[l], 'transmittance', 'inverted/trans/%s/%s' % (case['path'], case['second']), layer=l,
+                 atol=1e-15, saturated=sat)
+    r.nontrivial = inverted
+    r.observe(depth, trans)
+    return r
+
+
+# ---------------------------------------------------------------------------------------------
 # history phase: one live model, every sequence of parameter updates, fresh-model differential
 # ---------------------------------------------------------------------------------------------
 HIST_ALPHABET = [['T', 800.0], ['T', 1800.0], ['planet_radius', 0.8], ['planet_radius', 1.3],
@@ -262,3 +316,6 @@ def explore(ctx):
     ctx.bounds.update(history_depth_full_alphabet=2 if ctx.tier == 'quick' else 3,
                       history_depth_reduced_alphabet=3 if ctx.tier == 'quick' else 4, histories=len(hcases))
     ctx.run_cases('hist_fn', hcases, phase='histories')
+    inv = [{'N': n, 'ntop': t, 'path': pth, 'second': sec} for n in (3, 4, 5, 7) for t in (1, 2) if t < n
+           for pth in ('old', 'new') for sec in ('flat', 'lee', 'ray', 'cia')]
+    ctx.run_cases('inverted_fn', inv, phase='inverted')
